@@ -52,11 +52,10 @@ class SWITCH:
              dict(args=TUPLE(SCALAR, SCALAR, SCALAR, SCALAR, SCALAR)),
              dict(args=TUPLE(SCALAR, SCALAR, SCALAR, SCALAR, SCALAR, SCALAR))]
 
-    def pre(target_value, args):
-        # comparisons between text/number/logical follow Python ==; error and date targets are outside the statement
-        return not is_err(target_value)
-
     def spec(target_value, args):
+        # comparisons between text/number/logical follow Python ==; an error value in the tested target is that error, never a branch
+        if is_err(target_value):
+            return target_value
         n = len(args)
         if n <= 1:
             return NOT_AVAILABLE
